@@ -405,3 +405,14 @@ Theorem body_first k1 k2 t1 t2 d :
 Proof.
   intros H0 H1 H2. destruct k1, k2; run2.
 Qed.
+
+(* ---------- a single wait under timeout_after(T) is bounded (used by C20) ---------- *)
+Theorem wait_bounded T d e : 0 <= T -> 0 <= d ->
+  let '(r, s) := eval (Block KTimeout false T (Await d)) (init e) in
+  now s <= Z.max T 0 /\ (now s <= d \/ r <> Ok) /\
+  (r = Ok \/ r = Exc ETaskTimeout \/ r = Exc ECancelled) /\ armed s = None.
+Proof.
+  intros HT Hd. unfold init. cbn [eval]. unfold set_deadline. cbn. unfold await. cbn.
+  destruct e as [e|]; cbn; zcmp; unfold aexit, unset_deadline; cbn; zcmp;
+    rewrite ?Z.eqb_refl; cbn; zcmp; repeat split; auto; try lia; try (right; discriminate).
+Qed.
